@@ -1,3 +1,8 @@
-from checks import treecheck
+from checks import treecheck, locate
+import vlib
+
+
 def run(tier, seed):
-    return treecheck.run_tree_property("C06", "Properties_C06", tier, seed, set("placement,data".split(",")))
+    def extra(rep, sdir):
+        locate.run_float_part(rep, tier, seed, sdir)
+    return treecheck.run_tree_property("C06", "Properties_C06", tier, seed, set("placement,data".split(",")), extra=extra)
